@@ -174,6 +174,20 @@ func (w *world) exchange(e exch, skipLe bool) (msg string, sent []byte) {
 	if len(data) == 0 {
 		data = nil
 	}
+	// The command data is handed over as a sub-slice with live bytes behind it (as a caller
+	// cutting a payload into chunks would): protecting the command must neither change the
+	// caller's data nor write into the bytes that follow it.
+	const guardLen = 48
+	var backing, beforeBuf []byte
+	if len(data) > 0 {
+		backing = make([]byte, len(data)+guardLen)
+		copy(backing, data)
+		for i := len(data); i < len(backing); i++ {
+			backing[i] = byte(0xC3 ^ i)
+		}
+		beforeBuf = bytes.Clone(backing)
+		data = backing[:len(data)]
+	}
 	var chipMsg string
 	var u *sm.Unwrapped
 	w.lk.hook = func(capdu []byte) []byte {
@@ -202,6 +216,17 @@ func (w *world) exchange(e exch, skipLe bool) (msg string, sent []byte) {
 	}
 	if n := w.lk.sent - before; n != 1 {
 		return fmt.Sprintf("%d transmissions for one command", n), sent
+	}
+	if backing != nil && !bytes.Equal(backing, beforeBuf) {
+		i := 0
+		for i < len(backing) && backing[i] == beforeBuf[i] {
+			i++
+		}
+		where := "the command data"
+		if i >= len(data) {
+			where = "the caller's bytes BEHIND the command data (spare capacity of the slice)"
+		}
+		return fmt.Sprintf("DoAPDU modified %s at offset %d of a %d-byte data field (was %02x, is %02x)", where, i, len(data), beforeBuf[i], backing[i]), sent
 	}
 	if chipMsg != "" {
 		return chipMsg + " (sent " + head(sent) + ")", sent
